@@ -127,6 +127,14 @@ def _ft_block(block: List[ast.stmt], subst):
 def _ft_stmt(s: ast.stmt, subst):
     if isinstance(s, (ast.Return, ast.Raise, ast.Continue, ast.Break)):
         return ("const", False)
+    if isinstance(s, ast.Try):
+        alts = [_ft_block(s.body + s.orelse, subst)] + [_ft_block(h.body, subst) for h in s.handlers]
+        f_ = ("or", alts)
+        if s.finalbody:
+            f_ = ("and", [f_, _ft_block(s.finalbody, subst)])
+        return f_
+    if isinstance(s, ast.With):
+        return _ft_block(s.body, subst)
     if isinstance(s, ast.If):
         t = formula(s.test, subst)
         return ("or", [("and", [t, _ft_block(s.body, subst)]),
